@@ -1273,7 +1273,7 @@ class ActionPrebuilder(xtuml.tools.Walker):
         prev = None
         for child in node.children:
             v_par = self.accept(child)
-            xtuml.relate(prev, v_par, 816, 'succeeds')
+            xtuml.relate(prev, v_par, 816, 'precedes')
             prev = v_par
             yield v_par
             
